@@ -56,8 +56,11 @@ type Task struct {
 	point       string
 	preemptible bool
 	gateBlocked bool
+	gateFails   int // consecutive failed probes of the current gate
+	gateWait    int // steps by other tasks to sit out before the next probe (exponential back-off)
 	daemon      bool
 	auto        bool
+	wakeAt      time.Time // Sleep: not eligible before this (fake) time
 	noPark      bool // task-level switch: plain yield points do not park (gates still do)
 
 	done chan struct{} // closed (visibly to the race detector) when the task finishes
@@ -93,6 +96,8 @@ type World struct {
 	maxSteps   int
 	truncated  bool
 	Deadlocked bool
+	progress     int64 // releases that were not re-probes of a gate
+	deadlockMark int64
 
 	pointNames   [maxPoints]string
 	npoints      int32
@@ -128,6 +133,7 @@ type World struct {
 	IdleAdvance   time.Duration   // when nothing is eligible but unfinished non-daemon tasks remain, sleep this long...
 	IdleAdvanceN  int             // ...at most this many times per Run call
 	advanced      time.Duration
+	nextWake      time.Time // earliest wake-up of a sleeping task (set by collect)
 }
 
 var curWorld atomic.Pointer[World]
@@ -259,11 +265,21 @@ func (w *World) hook(point string, try func() bool) {
 		if try == nil || hiddenTry(try) {
 			return
 		}
+		// The holder may be a goroutine of the same cascade that is about to release the mutex (as it would have if this
+		// goroutine had simply blocked on it): give it the chance before concluding that the holder is a parked task.
+		for i := 0; i < 100; i++ {
+			runtime.Gosched()
+			if hiddenTry(try) {
+				return
+			}
+		}
 		// internal goroutine in front of a mutex held by a parked task: adopt it until the mutex is free
 		t = &Task{W: w, Name: "auto:" + point, goid: g, wake: make(chan struct{}), done: make(chan struct{}), auto: true, daemon: true}
 		atomic.StoreInt32(&t.state, stRunning)
 		w.addTask(t)
 		for {
+			t.gateFails++
+			t.gateWait = 1 << min(t.gateFails-1, 5)
 			t.gateBlocked = true
 			t.park(point, false)
 			if hiddenTry(try) {
@@ -284,9 +300,12 @@ func (w *World) hook(point string, try func() bool) {
 	}
 	t.park(point, en && !t.noPark)
 	for !hiddenTry(try) {
+		t.gateFails++
+		t.gateWait = 1 << min(t.gateFails-1, 5)
 		t.gateBlocked = true
 		t.park(point, true)
 	}
+	t.gateFails = 0
 	// Only the task released in this step can be here (every other task parks before probing), so the log needs no lock.
 	if w.RecordGates && w.ngates < len(w.gateLog) {
 		w.gateLog[w.ngates] = GatePass{Task: t.Name, Point: point, Step: atomic.LoadInt64(&w.step)}
@@ -385,6 +404,17 @@ func (t *Task) setPanic(v, stack string) {
 	t.panicStack = stack
 }
 
+// Sleep makes the task ineligible until d of fake time has passed. Time only advances when no task is eligible
+// (discrete-event style): the scheduler then jumps to the earliest wake-up, so nothing runnable is ever withheld
+// while time passes.
+//
+//go:norace
+func (t *Task) Sleep(d time.Duration) {
+	t.wakeAt = time.Now().Add(d)
+	t.park("sleep", true)
+	t.wakeAt = time.Time{}
+}
+
 // Yield is a harness-level scheduling point.
 func (t *Task) Yield(op string) { t.park(op, true) }
 
@@ -449,10 +479,21 @@ type parkedInfo struct {
 func (w *World) collect(elig []parkedInfo) (out []parkedInfo, blockedGates int, running int, unfinished int) {
 	out = elig[:0]
 	n := int(atomic.LoadInt32(&w.ntasks))
+	now := time.Now()
+	w.nextWake = time.Time{}
 	for i := 0; i < n; i++ {
 		t := w.tasks[i]
 		switch atomic.LoadInt32(&t.state) {
 		case stParked:
+			if !t.wakeAt.IsZero() && now.Before(t.wakeAt) {
+				if w.nextWake.IsZero() || t.wakeAt.Before(w.nextWake) {
+					w.nextWake = t.wakeAt
+				}
+				if !t.daemon {
+					unfinished++
+				}
+				continue
+			}
 			if t.gateBlocked {
 				blockedGates++
 				if !t.daemon {
@@ -480,12 +521,27 @@ func (w *World) collect(elig []parkedInfo) (out []parkedInfo, blockedGates int, 
 }
 
 //go:norace
+func (w *World) unblockAll() {
+	n := int(atomic.LoadInt32(&w.ntasks))
+	for i := 0; i < n; i++ {
+		w.tasks[i].gateBlocked = false
+		w.tasks[i].gateWait = 0
+	}
+}
+
+//go:norace
 func (w *World) release(t *Task) {
 	n := int(atomic.LoadInt32(&w.ntasks))
 	for i := 0; i < n; i++ {
-		if o := w.tasks[i]; o != t {
-			o.gateBlocked = false
+		if o := w.tasks[i]; o != t && o.gateBlocked {
+			// another task takes a step: a blocked task may probe again once it has sat out its back-off
+			if o.gateWait--; o.gateWait <= 0 {
+				o.gateBlocked = false
+			}
 		}
+	}
+	if t.gateFails == 0 {
+		w.progress++ // not a mere re-probe of a gate
 	}
 	atomic.StoreInt32(&t.state, stRunning)
 	atomic.AddInt64(&w.step, 1)
@@ -530,20 +586,37 @@ func (w *World) Advance(d time.Duration) {
 // Run schedules tasks until none is eligible (every task is finished, durably blocked, or blocked on a gate).
 func (w *World) Run() {
 	var buf [maxTasks]parkedInfo
-	idleAdv := 0
+	var idleSpent time.Duration
 	for {
 		w.sleep(time.Microsecond)
 		w.wait()
 		elig, blockedGates, _, unfinished := w.collect(buf[:0])
+		if len(elig) == 0 && !w.nextWake.IsZero() {
+			// nothing can run now, but a task is sleeping: jump to its wake-up time
+			if d := time.Until(w.nextWake); d > 0 {
+				w.Advance(d)
+			}
+			continue
+		}
 		if len(elig) == 0 {
 			if blockedGates > 0 {
-				// every remaining task waits for a mutex nobody will release
-				w.Deadlocked = true
-				return
+				// Only tasks waiting for mutexes are left. Let each of them probe once more; if we come back here and
+				// nothing but re-probes happened in between, nobody is ever going to release those mutexes.
+				if w.deadlockMark == w.progress+1 {
+					w.Deadlocked = true
+					return
+				}
+				w.deadlockMark = w.progress + 1
+				w.unblockAll()
+				continue
 			}
-			if unfinished > 0 && w.IdleAdvance > 0 && idleAdv < w.IdleAdvanceN {
-				idleAdv++
-				w.Advance(w.IdleAdvance)
+			if unfinished > 0 && w.IdleAdvance > 0 && idleSpent < w.IdleAdvance*time.Duration(w.IdleAdvanceN) {
+				// Nothing can run: let fake time pass so that pending timers fire. The time of the next timer is not
+				// known, so time passes in small quanta; as soon as a timer has made a task runnable the loop sees it,
+				// and no runnable task is withheld for longer than one quantum.
+				const quantum = 200 * time.Millisecond
+				idleSpent += quantum
+				w.Advance(quantum)
 				continue
 			}
 			return
